@@ -488,13 +488,13 @@ class Runner:
                     sim.inject(p["k"], where, lambda f=f: self.apply_fault(f))
             else:
                 if f["kind"] in NET_FAULTS or f["kind"].startswith("chunk:"):
-                    sim.net.at(p["t"], lambda f=f: self.apply_fault(f))
+                    sim.net.at(p["t"] - core_start() + sim.start_time, lambda f=f: self.apply_fault(f))
                 elif p.get("after_io"):
                     # a user action in the SAME loop iteration as the network events of this instant, but behind them: a zero-delay timer
                     # (asyncio runs ready handles, then I/O callbacks, then due timers)
-                    sim.net.at(p["t"], lambda f=f: sim.loop.call_at(sim.loop.time(), lambda: self.apply_fault(f)))
+                    sim.net.at(p["t"] - core_start() + sim.start_time, lambda f=f: sim.loop.call_at(sim.loop.time(), lambda: self.apply_fault(f)))
                 else:
-                    sim.at(p["t"], lambda f=f: self.apply_fault(f))
+                    sim.at(p["t"] - core_start() + sim.start_time, lambda f=f: self.apply_fault(f))
 
     # ------------------------------------------------------------------ audits
     def audit(self, label: str, view: Any | None) -> dict[str, Any]:
